@@ -473,6 +473,15 @@ func (in *inliner) rewriteList(list *[]ast.Stmt, stack map[*ast.FuncDecl]bool, d
 						out = append(out, x)
 						continue
 					}
+					// (E) v = g(a, h(…), b): a multi-statement helper as one argument of the call on the right-hand
+					// side, every other operand a plain variable/selector/literal. Go leaves the order between
+					// reading those operands and calling h unspecified, so h may be hoisted in front of the statement.
+					if hoisted := in.hoistArg(call, stack, depth); hoisted != nil {
+						out = append(out, hoisted...)
+						in.rewriteStmt(x, stack, depth)
+						out = append(out, x)
+						continue
+					}
 				}
 			}
 		case *ast.ReturnStmt:
@@ -556,6 +565,59 @@ func (in *inliner) rewriteList(list *[]ast.Stmt, stack map[*ast.FuncDecl]bool, d
 		out = append(out, s)
 	}
 	*list = out
+}
+
+// hoistArg inlines one helper call that is a direct argument of outer (case E) and returns the statements to
+// put in front of the enclosing statement; outer's argument is replaced by the result variable.
+func (in *inliner) hoistArg(outer *ast.CallExpr, stack map[*ast.FuncDecl]bool, depth int) []ast.Stmt {
+	switch Unparen(outer.Fun).(type) {
+	case *ast.Ident, *ast.SelectorExpr:
+	default:
+		return nil
+	}
+	if sel, ok := Unparen(outer.Fun).(*ast.SelectorExpr); ok && !pureArg(sel.X) {
+		return nil
+	}
+	at := -1
+	for i, a := range outer.Args {
+		if c, ok := Unparen(a).(*ast.CallExpr); ok {
+			if _, d := in.calleeDecl(c); d != nil && !stack[d] && at < 0 {
+				at = i
+				continue
+			}
+		}
+		if !pureArg(a) && !in.pureMapRead(a) {
+			return nil
+		}
+	}
+	if at < 0 {
+		return nil
+	}
+	call := Unparen(outer.Args[at]).(*ast.CallExpr)
+	pre, blk := in.inlineCallStmt(call, stack, depth, true)
+	if blk == nil || len(pre.names) != 1 {
+		return nil
+	}
+	outer.Args[at] = pre.idents(call.Pos())[0]
+	return append(append([]ast.Stmt{}, pre.decls...), blk)
+}
+
+// pureMapRead: m[k] with plain m and k on a map (never panics, no side effect).
+func (in *inliner) pureMapRead(e ast.Expr) bool {
+	ix, ok := Unparen(e).(*ast.IndexExpr)
+	if !ok || !pureArg(ix.X) || !pureArg(ix.Index) {
+		return false
+	}
+	oix, _ := in.orig(ix).(*ast.IndexExpr)
+	if oix == nil {
+		return false
+	}
+	t := in.info.TypeOf(oix.X)
+	if t == nil {
+		return false
+	}
+	_, isMap := t.Underlying().(*types.Map)
+	return isMap
 }
 
 // resultVars are the fresh variables receiving the results of an inlined helper.
